@@ -92,5 +92,13 @@ Definition accept (s : sstate) (o : op) (r : out) : sstate + N :=
       | Some c => inr c
       | None => inl (srec s {| o_tag := 1; o_set := s_set nd; o_un := s_un nd; o_key := k; o_ans := a |})
       end
+  | Alloc n k, OStr a =>
+      (* end to end: the node that served the request is the healthy owner all nodes agree on *)
+      let nd := sget s n in
+      match ok_health (s_obs s) (s_set nd) (s_un nd) k a with
+      | Some c => inr c
+      | None => inl (srec s {| o_tag := 1; o_set := s_set nd; o_un := s_un nd; o_key := k; o_ans := a |})
+      end
+  | Alloc n k, OErr => inl s      (* owner not reachable: nothing served *)
   | _, _ => inr 9
   end.
